@@ -26,6 +26,7 @@ func init() {
 			{"C20.raw-storage", "a chunk's stored bytes are passed on unconverted only where the converters match", 1, func(c *Ctx) { c.rawStorageGuarded() }},
 			{"C20.converters-equal", "Converters.equal answers true only for lists of equal length (it licenses passing stored bytes on)", 2, c14ConvertersEqual},
 			{"C20.compress-api", "Compress/Decompress present with the expected signatures", 2, c20CompressAPI},
+			{"C20.pooled-memory", "nothing taken from a sync.Pool and given back by a function leaves that function (compressed output is the chunk's own memory)", 1, func(c *Ctx) { c.pooledMemoryEscapes() }},
 			{"C20.id-parse-exact", "a file name parses as a chunk id only if it is exactly 64 hex digits", 1, c20IDParseExact},
 			{"C20.options-from-config", "every store built in cmd/desync gets its options (incl. the storage format) from the config entry of its location", 12, func(c *Ctx) { c.storeOptionsFromConfig() }},
 		},
